@@ -5,6 +5,7 @@ package internal
 // VerifNode is one node of an [IntervalBST] as seen by the verification harness.
 type VerifNode struct {
 	Low, High, Max, Height int
+	HasLeft, HasRight      bool
 }
 
 // VerifShape returns the nodes of the tree in pre-order (node, left, right).
@@ -20,6 +21,9 @@ func (t *IntervalBST[T]) VerifShape() []VerifNode {
 			High:   n.item.GetHigh(),
 			Max:    n.max,
 			Height: n.height,
+
+			HasLeft:  n.left != nil,
+			HasRight: n.right != nil,
 		})
 		walk(n.left)
 		walk(n.right)
